@@ -56,6 +56,18 @@ def _s12(case, msg):
                 and o.get('returnedWhileStalled', 0) >= 1024)
 
 
+@signature('enqueue_ignores_deadline')
+def _s16(case, msg):
+    # S16: the lookup that finds the request channel full (number capacity+1 of a burst against a stalled transport) waits for
+    # room past its deadline. Any other late lookup (another position, another scenario, a transport that is not stalled) is
+    # still a violation
+    if case.get('op') != 'flow' or case.get('kind') != 'burst' or ': S16: ' not in msg:
+        return False
+    o = case.get('obs', {})
+    return bool(case.get('holdMs', 0) >= 1500 and o.get('returnedWhileStalled') == 1024 and o.get('slowestLookup') == 1025
+                and not o.get('hang'))
+
+
 def match(pid, case, msg):
     """the known finding that explains this spec failure, or None"""
     for e in _F.get('findings', []):
